@@ -318,5 +318,6 @@ func runC09(e *Engine, r *Report) {
 	ruleRemoveNodeDataOrder(e, r)
 	ruleTanCompactionUpdate(e, r)
 	ruleTanRemoveAllFirst(e, r)
+	rulePointReadClamped(e, r)
 	borrow(e, r, "C20", "MPT-import-batch")
 }
